@@ -4,6 +4,7 @@ acceptor of the abstract machine; an oracle written from the statement re-derive
 import json
 
 import runs
+import tracer
 import machine_wire as MW
 from common import f2bits
 
@@ -119,6 +120,9 @@ def run(ctx, drv, prop="C01"):
     evs = ("map", "map", "pickle", "pickle", "thread", "apply") + (("process",) if not ctx.quick() else ())
     cfgs = runs.gen_configs(rng, n, evaluators=evs)
     cfgs += runs.gen_configs(rng, n // 5, evaluators=("map", "pickle"), extreme=0.02)
+    # mixed-type problems (a Real variable followed by list-encoded ones) with the documented compound operators
+    cfgs += runs.gen_configs(rng, n // 4, kinds=["mixed"], evaluators=("map", "pickle"),
+                             names=[a for a in tracer.ALGOS if "real" not in tracer.ALGOS[a][1]])
     if ctx.quick():
         cfgs += runs.gen_configs(rng, 3, evaluators=("process",), sizes=(4, 5))
     for cfg in cfgs:
